@@ -227,6 +227,7 @@
 #endif
 
 #include "assert.hpp"
+#include "verif_hooks.hpp"
 
 namespace unodb {
 
@@ -237,6 +238,7 @@ namespace unodb {
 // TODO(laurynas): move to unodb::detail namespace
 // LCOV_EXCL_START
 inline void spin_wait_loop_body() noexcept {
+  UNODB_DETAIL_VERIF_HOOK(::unodb::verif::ev::SPIN, nullptr);
 #if UNODB_SPINLOCK_LOOP_VALUE == UNODB_DETAIL_SPINLOCK_LOOP_PAUSE
 
 #if defined(UNODB_DETAIL_X86_64)
@@ -386,6 +388,7 @@ class [[nodiscard]] optimistic_lock final {
     /// The version number is preserved.
     /// \pre The write lock bit must be set.
     void write_unlock() noexcept {
+      UNODB_DETAIL_VERIF_HOOK(::unodb::verif::ev::L_UNLOCK, this);
       // This thread has written the previous lock word value, and no other
       // thread may write it before the unlock, thus we can read it without
       // ordering.
@@ -401,6 +404,7 @@ class [[nodiscard]] optimistic_lock final {
     /// \pre The obsolete bit must be clear
     /// \pre The write lock bit must be set
     void write_unlock_and_obsolete() noexcept {
+      UNODB_DETAIL_VERIF_HOOK(::unodb::verif::ev::L_OBSOLETE, this);
 #ifndef NDEBUG
       const auto old_lock_word{load_relaxed()};
       UNODB_DETAIL_ASSERT(!old_lock_word.is_obsolete());
@@ -682,6 +686,7 @@ class [[nodiscard]] optimistic_lock final {
   /// protected data access to check for obsolete state.
   [[nodiscard]] read_critical_section try_read_lock() noexcept {
     while (true) {
+      UNODB_DETAIL_VERIF_HOOK(::unodb::verif::ev::L_LOAD, this);
       const auto current_version = version.load_acquire();
       if (UNODB_DETAIL_LIKELY(current_version.is_free())) {
         inc_read_lock_count();
@@ -758,6 +763,8 @@ class [[nodiscard]] optimistic_lock final {
 #ifndef UNODB_DETAIL_THREAD_SANITIZER
     std::atomic_thread_fence(std::memory_order_acquire);
 #endif
+    UNODB_DETAIL_VERIF_HOOK(::unodb::verif::ev::L_CHECK, this,
+                            locked_version.get());
     const auto result{locked_version == version.load_relaxed()};
 #ifndef NDEBUG
     if (UNODB_DETAIL_UNLIKELY(!result)) dec_read_lock_count();
@@ -788,6 +795,8 @@ class [[nodiscard]] optimistic_lock final {
   /// was taken
   [[nodiscard]] bool try_upgrade_to_write_lock(
       version_type locked_version) noexcept {
+    UNODB_DETAIL_VERIF_HOOK(::unodb::verif::ev::L_CAS, this,
+                            locked_version.get());
     const auto result{
         version.cas_acquire(locked_version, locked_version.set_locked_bit())};
     dec_read_lock_count();
@@ -912,11 +921,14 @@ class [[nodiscard]] in_critical_section final {
 
   /// Explicitly read the wrapped value.
   [[nodiscard]] T load() const noexcept {
+    UNODB_DETAIL_VERIF_HOOK(::unodb::verif::ev::F_LOAD, &value);
     return value.load(std::memory_order_relaxed);
   }
 
   /// Explicitly assign the wrapped value from \a new_value.
   void store(T new_value) noexcept {
+    UNODB_DETAIL_VERIF_HOOK(::unodb::verif::ev::F_STORE, &value,
+                            ::unodb::verif::as_u64(new_value));
     value.store(new_value, std::memory_order_relaxed);
   }
 
